@@ -11,6 +11,7 @@ from c01_impl import rand_dir
 
 from deepali.core.grid import Grid
 from deepali.data import Image
+from deepali.utils.simpleitk.grid import GridAttrs, image_grid_attributes
 
 
 def rand_header(rng, D, max_n=24):
@@ -55,6 +56,9 @@ def model_cases(p):
             g2 = Grid(size=h["size"], center=g.center(), spacing=h["spacing"], direction=h["direction"])
             r["world_center_route"] = g2.index_to_world(idx, decimals=None).double().tolist()
             img = sitk_image(h)
+            ga = image_grid_attributes(img)
+            r["attrs_world"] = [float(v) for v in ga.index_to_physical_space([float(v) for v in c["index"]])]
+            r["attrs_back"] = [float(v) for v in ga.physical_space_to_continuous_index(r["attrs_world"])]
             r["itk_world"] = list(img.TransformContinuousIndexToPhysicalPoint([float(v) for v in c["index"]]))
             r["itk_back"] = list(img.TransformPhysicalPointToContinuousIndex(r["itk_world"]))
             out.append(r)
@@ -97,6 +101,22 @@ def oracle(p):
                 if not bool(torch.all((back - itkb).abs() <= 3e-5 * isc * scale / min(h["spacing"]) / 10)):
                     fail("C02:world_to_index:vs_itk", "physical point maps to a different continuous index than ITK's",
                          header=h, point=want.tolist(), got=back.tolist(), itk=itkb.tolist())
+            # the SimpleITK-side grid attributes agree with ITK in both directions
+            ga = image_grid_attributes(img)
+            for _ in range(4):
+                idx = [rng.uniform(-n - 2, 2 * n + 2) for n in h["size"]]
+                wi = torch.tensor(img.TransformContinuousIndexToPhysicalPoint(idx), dtype=torch.float64)
+                w = torch.tensor(ga.index_to_physical_space(idx), dtype=torch.float64)
+                if not bool(torch.all((w - wi).abs() <= 1e-9 * scale)):
+                    fail("C02:GridAttrs:index_to_physical_space", "differs from ITK's TransformContinuousIndexToPhysicalPoint", header=h, index=idx)
+                bi = torch.tensor(img.TransformPhysicalPointToContinuousIndex(wi.tolist()), dtype=torch.float64)
+                b = torch.tensor(ga.physical_space_to_continuous_index(wi.tolist()), dtype=torch.float64)
+                if not bool(torch.all((b - bi).abs() <= 1e-8 * (max(h["size"]) * 3 + 4))):
+                    fail("C02:GridAttrs:physical_space_to_continuous_index", "differs from ITK's TransformPhysicalPointToContinuousIndex",
+                         header=h, point=wi.tolist(), got=b.tolist(), itk=bi.tolist())
+                bd = ga.physical_space_to_index(wi.tolist())
+                if not all(int(x) == int(round(float(y))) for x, y in zip(bd, bi.tolist()) if abs(float(y) - round(float(y))) < 0.49):
+                    fail("C02:GridAttrs:physical_space_to_index", "nearest index differs from ITK's continuous index rounded", header=h)
             # origin = sample 0; direction columns = unit steps; center consistent
             o = g.index_to_world(torch.zeros(D, dtype=torch.float64), decimals=None).double()
             if not bool(torch.all((o - torch.tensor(h["origin"], dtype=torch.float64)).abs() <= 3e-5 * scale)):
